@@ -381,6 +381,7 @@ Section TermMouse.
       - apply mem_false_notin. intro Hx. exact (Hfr src Hx Hok). }
     rewrite Hfr. destruct (t_path_some src _ Hok) as (p & Hp).
     unfold f_abs_origin, forest. cbn [first_some]. rewrite Hp.
+    destruct (f_path_visible (i_root s) src); [|exact Hi].
     apply hm_inv; assumption.
   Qed.
 
